@@ -44,14 +44,14 @@ POOLSIM_ESSENTIAL = {
     "C01": ["C01.home-ready-cur", "C01.home-ready:after-refresh", "C01.home-down-wait", "C01.bind", "C01.unbind",
             "C01.rebind-ignored", "C01.failed-bind-unbind", "C01.macro-rebind-complete"],
     "C02": ["C02.least-loaded-multi", "C02.at-max", "C02.count", "C02.quiescent-zero", "C02.empty-snap"],
-    "C03": ["C03.initial", "C03.growth-attempt", "C03.growth-blocked-by-connecting", "C03.max", "C02.at-max"],
+    "C03": ["C03.initial", "C03.growth-attempt", "C03.growth-blocked-by-connecting", "C03.max", "C02.at-max", "C03.filled-to-high-watermark"],
     "C04": ["C04.aggregate", "C04.publish", "C04.publish-tf-boundary", "C04.ignored-report", "C04.tf-picker"],
     "C05": ["C05.hostile-case", "C05.malformed-handled"],
     "C06": ["C06.lock-free-after-op", "C06.hard-state", "C09.rr-wait", "C08.place-saturated", "C06.waiter-parked"],
     "C07": ["C07.rule", "C07.rule-refresh", "C07.swap", "C07.window-boundary", "C07.window-doubled",
             "C07.started-before-last-response", "C07.disabled", "C07.extreme-window", "C07.saturated-window"],
     "C08": ["C08.fallback", "C08.place", "C08.sticky", "C08.place-saturated"],
-    "C09": ["C09.successor", "C09.rr-wait", "C09.waiter-released", "C09.ctx-end", "C09.cursor-near-2^31"],
+    "C09": ["C09.successor", "C09.rr-wait", "C09.waiter-released", "C09.ctx-end", "C09.cursor-near-2^31", "C09.big-pool"],
     "C20": ["C20.addr", "C20.replacement-addr", "C20.new-addr", "C20.resolver-error"],
 }
 
@@ -142,7 +142,7 @@ PROPS["C12"] = dict(level="exploration",
                  "blocking is decided from goroutine states (sync.Cond.Wait / sync.Mutex.Lock) sampled by the harness"],
     stages=[dict(name="stream", engine="stream", test="TestVerifStream", batches=dict(quick=8, thorough=16),
                  essential={"C12": ["C12.not-created-at-construction", "C12.creation-gated", "C12.recv-before-send", "C12.recv-waits-during-creation", "C12.recv-released",
-                                    "C12.first-message-visible", "C12.retry-message-visible", "C12.sends-in-order", "C12.recv-delegated", "C12.recv-gets-creation-error", "C12.late-recv-reaches-stream",
+                                    "C12.first-message-visible", "C12.retry-message-visible", "C12.failed-creation-returns-typed-nil", "C12.sends-in-order", "C12.recv-delegated", "C12.recv-gets-creation-error", "C12.late-recv-reaches-stream",
                                     "C12.recv-returns-on-context-end", "C12.bystander:before-send", "C12.bystander-delegates", "C12.unary-transparent", "C12.unary-nested-context", "C12.recv-released-while-send-blocks", "C12.late-recv-after-cancel-reaches-stream", "C12.first-send-error-no-second-stream"]},
                  timeout=dict(quick=900, thorough=7200))])
 
@@ -189,7 +189,7 @@ PROPS["C01"]["rule"] += "; poollin stage: concurrent histories (3-8 goroutines, 
 PROPS["C01"]["assumptions"] = PROPS["C01"]["assumptions"] + ["poollin stage: per-key register model (bind = write-if-absent, unbind = clear, keyed pick = read); porcupine timeouts are inconclusive"]
 PROPS["C02"]["stages"].append(stress_stage({"C02": ["C02.stress-quiescent-zero", "stress.placed", "C02.stress-balanced-fill"]}))
 PROPS["C07"]["stages"].append(stress_stage({"C07": ["C07.stress-one-replacement", "C07.stress-concurrent-timeouts"]}))
-PROPS["C03"]["stages"].append(stress_stage({"C03": ["C03.stress-max"]}))  # the gate scenario's counter is not essential: after a refactoring its site may not exist (then it is inconclusive)
+PROPS["C03"]["stages"].append(stress_stage({"C03": ["C03.stress-max", "C03.slow-factory-grow"]}))  # the gate scenario's counter is not essential: after a refactoring its site may not exist (then it is inconclusive)
 PROPS["C09"]["stages"].append(stress_stage({"C09": ["C09.stress-exact", "C09.stress-bind-picks"]}))
 PROPS["C05"]["stages"].append(dict(name="stream", engine="stream", test="TestVerifStream", batches=dict(quick=8, thorough=16),
                                   essential={"C05": ["C12.not-created-at-construction", "C12.bystander:before-send"]}, timeout=dict(quick=900, thorough=7200)))
